@@ -287,7 +287,8 @@ def attribute(scen, rec, f, fail):
     if fail[0] in ("C01", "C02", "C05", "C06") and fail[1] in ("api-hang", "future-unresolved", "manager-left-behind",
                                                            "worker-left-behind", "survivors", "not-flagged", "future-hangs",
                                                            "maxsteps", "livelock", "needs-task-progress"):
-        if any(l.endswith("mgmt") for l in dh) and any("acquire(" in b and "mgmt" in b for b in blocked.values()):
+        if any(l.endswith("mgmt") for l in dh) and (fail[1] in ("maxsteps", "livelock") or
+                                                   any("acquire(" in b and "mgmt" in b for b in blocked.values())):
             return "D5"
         qlocks = [l for l in dh if l.endswith("cq.rlock") or l.endswith("rq.wlock")]
         m = blocked.get("M", "")
@@ -296,7 +297,7 @@ def attribute(scen, rec, f, fail):
             holder = dh[q]
             watched = m.startswith("wait(") and ("sentinel" + holder[1:]) in m
             starving = any(n.startswith("W") and f"acquire({q}" in b for n, b in blocked.items())
-            if starving and not watched:
+            if (starving or fail[1] in ("maxsteps", "livelock")) and not watched:
                 return "D7"
         ex = rec["final"]["ex"][0] if rec["final"]["ex"] else None
         if ex and rec.get("dropped") and m == "wait(rq.pipe,wakeup)" and ex["pending"] > 0 and not rec["final"]["alive"] \
@@ -364,7 +365,62 @@ def c19(scen, rec, f):
     return out
 
 
-ALL = {"C01": c01, "C02": c02, "C03": c03, "C04": c04, "C05": c05, "C06": c06, "C07": c07, "C08": c08, "C18": c18, "C19": c19}
+def c09(scen, rec, f):
+    """get_reusable_executor returns a live, correctly configured singleton"""
+    out = []
+    last_id = -1
+    for c in sorted(rec.get("reuse_calls", []), key=lambda c: c["t1"]):
+        a, b, r = c["args"], c["before"], c["after"]
+        single = len(scen["users"]) == 1
+        want_mw = a.get("max_workers") or (b["mw"] if (a.get("reuse") is True and b) else scen.get("cpu_count", 2))
+        if single and r["mw"] != want_mw:
+            out.append(("C09", "wrong-size", f"asked for max_workers={want_mw}, executor has {r['mw']} ({c})"))
+        if b is None:
+            if single and r["id"] <= last_id:
+                out.append(("C09", "id-not-fresh", f"first executor id {r['id']} after {last_id}"))
+        elif single and not any(e[1] in ("CRASH", "DIE") and e[3] <= c["t1"] for e in rec["events"]):
+            # (a worker death may be detected - and the pool flagged - between the caller's look at the
+            #  previous instance and the decision under the lock: such histories are not judged here)
+            reuse = a.get("reuse", "auto")
+            allowed = reuse is True or (reuse == "auto" and b["kwargs_same"])
+            healthy = not b["broken"] and not b["shutdown"]
+            same = r["id"] == b["id"]
+            if same != (healthy and allowed):
+                out.append(("C09", "identity-rule", f"previous healthy={healthy} reuse-allowed={allowed} but same-instance={same} ({c})"))
+            if not same and r["id"] <= b["id"]:
+                out.append(("C09", "id-not-larger", f"replacement id {r['id']} <= previous {b['id']}"))
+            if not same:
+                # the previous instance must be completely shut down first: its manager ended, its workers gone
+                prev_alive = [n for n in rec["final"]["alive"] if int(n[1:]) in b["pids"]]
+                if prev_alive and rec["end"] == "quiescent":
+                    out.append(("C09", "previous-not-shut-down", f"workers of the replaced executor still alive: {prev_alive}"))
+        if single and b is not None and r["id"] == b["id"] and (b["broken"] or b["shutdown"]):
+            out.append(("C09", "returned-dead", f"the instance returned was already flagged when the call began ({c})"))
+        last_id = max(last_id, r["id"])
+    return out
+
+
+def c10(scen, rec, f):
+    """a resize preserves work and surviving workers and returns with the requested size"""
+    out = []
+    if len(scen["users"]) != 1:
+        return out
+    for c in rec.get("reuse_calls", []):
+        a, b, r = c["args"], c["before"], c["after"]
+        if b is None or r["id"] != b["id"] or c["faults_during"] or f["crashes"] or f["timeouts"]:
+            continue
+        new = r["mw"]
+        if not b["started"]:
+            continue            # never started: only the number is recorded
+        if len(r["pids"]) != new or len(r["alive"]) != new:
+            out.append(("C10", "wrong-size-at-return", f"resize {b['mw']}->{new}: {len(r['pids'])} registered, {len(r['alive'])} alive ({c})"))
+        kept = len(set(r["pids"]) & set(b["pids"]))
+        if kept != min(len(b["pids"]), new):
+            out.append(("C10", "survivors-restarted", f"resize {b['mw']}->{new}: {kept} of the previous {len(b['pids'])} workers kept, expected {min(len(b['pids']), new)} ({c})"))
+    return out
+
+
+ALL = {"C01": c01, "C02": c02, "C03": c03, "C04": c04, "C05": c05, "C06": c06, "C07": c07, "C08": c08, "C18": c18, "C19": c19, "C09": c09, "C10": c10}
 
 
 def evaluate(scen, rec, props=None):
